@@ -102,3 +102,31 @@ Proof. split; vm_compute; reflexivity. Qed.
 
 Theorem gen_updates_ok : updates_ok = true.
 Proof. vm_compute; reflexivity. Qed.
+
+(* ---- grouped statements used by Props/Properties_C02_scalar.v ---- *)
+Local Open Scope R_scope.
+Theorem fw_elementwise_spec_all x k a b :
+  (fw_negate x = - x /\ fw_abs x = Rabs x /\ fw_sqrt x = sqrt x /\ fw_exp x = exp x /\
+   fw_log x = ln x /\ fw_tanh x = tanh x /\ fw_sin x = sin x /\ fw_cos x = cos x /\
+   fw_tan x = tan x /\ fw_sigmoid x = 1 / (1 + exp (- x)) /\ fw_softplus x = ln (1 + exp x)) /\
+  (fw_add_const x k = x + k /\ fw_subtract_const_r x k = x - k /\ fw_subtract_const_l x k = k - x /\
+   fw_multiply_const x k = x * k /\ fw_divide_const_r x k = x / k /\ fw_divide_const_l x k = k / x /\
+   fw_pow_const_r x k = Rpower x k /\ fw_pow_const_l x k = Rpower k x) /\
+  (fw_add_scalar x k = fw_add_const x k /\ fw_subtract_scalar_r x k = fw_subtract_const_r x k /\
+   fw_subtract_scalar_l x k = fw_subtract_const_l x k /\ fw_multiply_scalar x k = fw_multiply_const x k /\
+   fw_divide_scalar_r x k = fw_divide_const_r x k /\ fw_divide_scalar_l x k = fw_divide_const_l x k /\
+   fw_pow_scalar_r x k = fw_pow_const_r x k /\ fw_pow_scalar_l x k = fw_pow_const_l x k) /\
+  (fw_add a b = a + b /\ fw_subtract a b = a - b /\ fw_multiply a b = a * b /\
+   fw_divide a b = a / b /\ fw_pow a b = Rpower a b).
+Proof.
+  exact (conj (fw_unary_spec x) (conj (fw_const_spec x k) (conj (fw_scalar_spec x k) (fw_binary_spec a b)))).
+Qed.
+
+Theorem fw_activation_spec_all x k :
+  fw_prelu x k = (if Rge_dec x 0 then x else k * x) /\
+  fw_elu x k = (if Rge_dec x 0 then x else k * (exp x - 1)) /\
+  fw_prelu x 0 = Rmax x 0 /\ fw_prelu x (1 / 100) = Rmax x (1 / 100 * x).
+Proof. exact (conj (fw_prelu_spec x k) (conj (fw_elu_spec x k) (conj (fw_relu_spec x) (fw_lrelu_spec x)))). Qed.
+
+Theorem gen_tables_ok : names_covered_ok = true /\ gen_translation_errors = 0%nat /\ updates_ok = true.
+Proof. exact (conj (proj1 gen_names_covered) (conj (proj2 gen_names_covered) gen_updates_ok)). Qed.
